@@ -553,10 +553,8 @@ class Result(JsonSerializable):
             """Update the Result object when its type is CHOICETYPE."""
             # The provided 'p_value' is used as an index to increase the
             # choice in self._value, which is stored as a numpy array.
-            assert isinstance(
-                p_value,
-                (int, np.int, np.int32,
-                 np.int64)), "Value for the CHOICETYPE must be an integer."
+            assert isinstance(p_value, (int, np.integer)), (
+                "Value for the CHOICETYPE must be an integer.")
 
             self._value[p_value] += 1
             self._total += 1
